@@ -143,6 +143,40 @@ pub fn unhandled_call(what: &'static str) -> ! {
 }
 
 /// `try_` client calls and `try_invoke_contract`: whether the callee fails is a symbolic choice.
+/// how a failing callee fails, as seen by a `try_` call: a host error, a contract error code, an abort, or an
+/// error code the caller's error type cannot represent — all symbolic
+pub fn nondet_callee_error() -> Result<crate::Error, crate::InvokeError> {
+    #[cfg(kani)]
+    {
+        let kind: u8 = kani::any();
+        let code: u32 = kani::any();
+        match kind & 3 {
+            0 => Ok(crate::Error::host(code)),
+            1 => Ok(crate::Error::from_contract_error(code)),
+            2 => Err(crate::InvokeError::Abort),
+            _ => Err(crate::InvokeError::Contract(code)),
+        }
+    }
+    #[cfg(not(kani))]
+    {
+        Err(crate::InvokeError::Abort)
+    }
+}
+/// the same for `Env::try_invoke_contract`, whose error type the model cannot construct: abort or an unconvertible code
+pub fn nondet_invoke_error() -> crate::InvokeError {
+    #[cfg(kani)]
+    {
+        if kani::any() {
+            crate::InvokeError::Abort
+        } else {
+            crate::InvokeError::Contract(kani::any())
+        }
+    }
+    #[cfg(not(kani))]
+    {
+        crate::InvokeError::Abort
+    }
+}
 pub fn nondet_u64() -> u64 {
     #[cfg(kani)]
     {
